@@ -118,6 +118,7 @@ def classify(clean, ex, lineno, sites=None):
     e = bad.get("e")
     if cls == "none":
         kind = "clean-run-rejected"
+        injected_in = "-"
         what = f"the failure-free run itself is rejected at {json.dumps(bad)[:160]}"
     elif lineno == ex[0][0]:
         # the Reset line itself was not consumable: the ghost of the clean run is missing (its execution was rejected)
@@ -183,6 +184,9 @@ def classify(clean, ex, lineno, sites=None):
 def run(ctx):
     q = ctx.quick
     bdir = ctx.build("asan", "faults")
+    rc, out, err = vlib.run_harness(ctx, bdir, "faults", ["hook"], timeout=60, env=HARNESS_ENV)
+    if rc != 0:
+        raise Broken("hook H1 (hooks/H1_arena_fault.patch: asmjit_verif_arena_fail) is not applied to the asmjit tree under test")
     design(ctx)
     # ---- record ----
     jobs = []
